@@ -5,6 +5,7 @@ package world
 type V struct {
 	Kind   string // post | actor | activity | fail
 	N      *Node
+	Anon   bool // post embedded without an id
 	Target *V // activity: the object (post, actor or fail)
 	ActorV *V // activity: the actor (actor or fail)
 }
@@ -50,6 +51,24 @@ func (w *World) Resolve(e *Edge, sourceHost string) *Node {
 	return e.To
 }
 
+// postViewVia: the post as reached through mention e; a post embedded without an id has no
+// identifier of its own, so any author that has one makes it a forgery
+func (w *World) postViewVia(e *Edge, n *Node) *V {
+	if e != nil && e.Mode == "anon" && n != nil && n.Kind == "post" {
+		for _, c := range n.Creators {
+			a := w.Resolve(c, "")
+			if a == nil || a.Kind != "actor" || a.Gone == "tombstone" {
+				continue
+			}
+			if c.Mode != "anon" {
+				return Fail
+			}
+		}
+		return &V{Kind: "post", N: n, Anon: true}
+	}
+	return w.postView(n)
+}
+
 func (w *World) postView(n *Node) *V {
 	if n == nil || n.Kind != "post" || n.Gone == "tombstone" {
 		return Fail
@@ -85,7 +104,7 @@ func (w *World) activityView(n *Node) *V {
 	if o := w.Resolve(n.Object, n.Host); o != nil {
 		switch o.Kind {
 		case "post":
-			v.Target = w.postView(o)
+			v.Target = w.postViewVia(n.Object, o)
 		case "actor":
 			v.Target = w.actorView(o)
 		}
@@ -141,6 +160,9 @@ func (w *World) Children(v *V) []*V {
 	switch v.Kind {
 	case "post":
 		p := v.N
+		if v.Anon {
+			return w.collSeq(p.Replies, func(e *Edge) *V { return Fail })
+		}
 		return w.collSeq(p.Replies, func(e *Edge) *V {
 			n := w.Resolve(e, p.Replies.Host)
 			if n == nil || n.Kind != "post" {
